@@ -1,5 +1,7 @@
 from __future__ import annotations
 
+import math
+
 import torch
 
 from torchtree.core.abstractparameter import AbstractParameter
@@ -83,7 +85,7 @@ class ELBO(CallableModel):
             log_p = self.p()
             lp = (
                 torch.logsumexp(log_p - log_q, -1)
-                - torch.tensor(float(log_p.shape[-1])).log()
+                - math.log(log_p.shape[-1])
             ).mean()
         else:
             self.q.rsample(samples)
@@ -291,7 +293,7 @@ class SELBO(CallableModel):
             log_weights = self.weights.tensor.log()
             lp = (
                 torch.logsumexp(log_p - log_q + log_weights, -1)
-                - torch.tensor(float(log_p.shape[-1])).log()
+                - math.log(log_p.shape[-1])
             ).mean()
         else:
             log_probs = []
